@@ -213,7 +213,20 @@ def truth(I, v):
     return True
 
 
+def _mask_bits(x):
+    """k if x == 2**k - 1 (k >= 1) else None"""
+    if isinstance(x, int) and not isinstance(x, bool) and x > 0 and (x & (x + 1)) == 0:
+        return x.bit_length()
+    return None
+
+
 def _num_binop(I, op, a, b):
+    if op == "&" and (isinstance(a, Sym) or isinstance(b, Sym)):
+        s_, m_ = (a, b) if isinstance(a, Sym) else (b, a)
+        k_ = _mask_bits(m_)
+        if k_ is not None and s_.kind == "int":
+            return mk(s_.t % (2 ** k_))          # python: x & (2**k - 1) == x mod 2**k for every integer x
+
     ka, kb = kind_of(a), kind_of(b)
     conc = not isinstance(a, Sym) and not isinstance(b, Sym)
     if conc:
@@ -368,7 +381,11 @@ def binop(I, op, a, b, inplace=False):
         return _num_binop(I, op, a, b)
     if isinstance(a, Tensor) or isinstance(b, Tensor):
         if (isinstance(a, Tensor) or is_scalar(a)) and (isinstance(b, Tensor) or is_scalar(b)):
-            return _tensor_binop(I, op, a, b)
+            r = _tensor_binop(I, op, a, b)
+            if inplace and isinstance(a, Tensor) and isinstance(r, Tensor) and r.shape == a.shape:
+                a.data[:] = r.data            # numpy: `a op= b` writes into a's buffer (every alias of a sees it)
+                return a
+            return r
         if isinstance(a, list) and isinstance(b, Tensor):
             return _tensor_binop(I, op, Tensor.fromlist(a), b)
         if isinstance(b, list) and isinstance(a, Tensor):
